@@ -49,7 +49,7 @@ func (f *Frame) frameTargets() map[string][]modTarget {
 // frame, checked against it; callers rely on it.
 func (f *Frame) frameOn() bool {
 	top := f.topFrame()
-	return top.contract != nil && (top.contract.Frame || top.contract.HasMod) && !top.contract.Trusted
+	return top.contract != nil && (top.contract.Frame || top.contract.HasMod) && !top.contract.Trusted && f.e.primary()
 }
 
 func (f *Frame) frameProps() []string {
@@ -66,7 +66,13 @@ func (f *Frame) allowedWrite(h, ref, idxLo, idxHi string) string {
 	e := f.e
 	var alts []string
 	alts = append(alts, e.isFresh(ref, top.alloc0))
+	if idxLo != "" {
+		alts = append(alts, fmt.Sprintf("(>= %s %s)", idxLo, idxHi)) // empty region
+	}
 	for _, t := range f.frameTargets()[h] {
+		if t.all {
+			return "true"
+		}
 		c := eq(ref, t.ref)
 		if t.lo != "" && idxLo != "" {
 			c = and(c, fmt.Sprintf("(<= %s %s)", t.lo, idxLo), fmt.Sprintf("(<= %s %s)", idxHi, t.hi))
@@ -148,6 +154,16 @@ func (f *Frame) frameCheckCall(in ssa.Instruction, ct *Contract, callee *ssa.Fun
 		for _, t := range f.modTargets(m.Expr, env) {
 			if strings.HasPrefix(t.heap, "ghost_") || strings.HasPrefix(t.heap, "G_") {
 				cs = append(cs, f.allowedGlobal(t.heap))
+				continue
+			}
+			if t.all {
+				ok := "false"
+				for _, u := range f.frameTargets()[t.heap] {
+					if u.all {
+						ok = "true"
+					}
+				}
+				cs = append(cs, ok)
 				continue
 			}
 			cs = append(cs, f.allowedWrite(t.heap, t.ref, t.lo, t.hi))
